@@ -161,6 +161,10 @@ func (ds *dataStore) load(fileName string) (err error) {
 		if flagHasOne(pkh.Flags, FLAG_KEY_TYPE_STRING) {
 			var str []byte
 			err = dec.Decode(&str)
+			if str == nil {
+				// gob decodes an empty byte slice as nil, which the store reads as "not a string"
+				str = []byte{}
+			}
 			payload = str
 		} else if flagHasOne(pkh.Flags, FLAG_KEY_TYPE_HASH_TABLE) {
 			var table map[string]string
